@@ -302,7 +302,8 @@ theorem C17_tfdf_roundtrip (t : Tfdf) (tr : Bool) (ft : FrameType) (wf : WFTfdf 
       simp [Spec.tfdfOctets]
     have e2 : (Spec.tfdfOctets ⟨r, u, some p, z⟩ ++ rest)[2].toNat = p % 256 % 256 := by
       simp [Spec.tfdfOctets]
-    rw [Tfdf.unpack_fhp _ h3 tr _ (some ft) (by rw [e, t0 r u hr hu]; exact hv) (by rw [e, t0 r u hr hu]; exact hs)]
+    rw [Tfdf.unpack_fhp _ h3 tr _ (by simp [Tfdf.len, Tfdf.headerLen]) (some ft) (by rw [e, t0 r u hr hu]; exact hv)
+      (by rw [e, t0 r u hr hu]; exact hs)]
     rw [e, e1, e2, t0 r u hr hu, t1 r u hr hu, t2 p hp]
     have hsl : slice (Spec.tfdfOctets ⟨r, u, some p, z⟩ ++ rest) 3 (Tfdf.len ⟨r, u, some p, z⟩) = z :=
       slice_of_decomp (a := [u8 (r * 32 + u), u8 (p / 256), u8 (p % 256)]) (m := z) (c := rest)
@@ -775,11 +776,11 @@ example : errIs (Frame.unpack (Spec.frameOctets exFrame) .fixed ⟨.variable, 24
     (.py .value) = true := by decide +kernel
 
 
-/-! ## outside the statement (recorded for C09): a fixed frame whose data field is declared as one
-octet but whose rule requires the pointer — the decoder only checks the *buffer* for three octets,
-reads the pointer from the OCF and returns a frame whose `len()` (14) exceeds the declared 12. -/
-example : okIs (Frame.unpack [0xC0, 0, 0, 0, 0, 0x0B, 0x08, 0x00, 0xAA, 0xBB, 0xCC, 0xDD] .fixed ⟨.fixed, 12, none, none⟩)
-    ⟨.primary ⟨0, false, 0, 0, 11, false, false, true, 0, some 0⟩, ⟨0, 0, some 0xAABB, []⟩, none,
-     some [0xAA, 0xBB, 0xCC, 0xDD], none⟩ = true := by decide +kernel
+/-! ## a fixed frame whose data field is declared as one octet but whose rule requires the pointer:
+refused (`UslpInvalidRawPacketOrFrameLen`). Before the repair recorded in known_findings.json the
+decoder only checked the *buffer* for three octets, read the pointer from the OCF and returned a
+frame whose `len()` (14) exceeded the declared 12. -/
+example : errIs (Frame.unpack [0xC0, 0, 0, 0, 0, 0x0B, 0x08, 0x00, 0xAA, 0xBB, 0xCC, 0xDD] .fixed ⟨.fixed, 12, none, none⟩)
+    (.uslp .invalidLen) = true := by decide +kernel
 
 end SpVerif.Props.C17
